@@ -118,11 +118,35 @@ def rule_commands(rep: Report, repo: Repo) -> None:
     skips = [r for r in ast.walk(q) if isinstance(r, ast.Return) and isinstance(r.value, ast.Tuple) and len(r.value.elts) == 2
              and isinstance(r.value.elts[0], ast.Constant) and r.value.elts[0].value == 'skip']
     sk_ok = bool(skips)
+
+    def positive_parsed(fn_: Any, site_: ast.AST, e_: ast.expr, src_: str, depth: int = 0) -> bool:
+        """at site_ of fn_, e_ is an integer > 0 parsed by int(<src_>, ..): directly (a dominating `e_ > 0` and a definition int(src_..)), or
+        as the result of a private module helper that gets src_ as its argument - every non-None value it returns qualifies inside the
+        helper, and its None is tested away before site_"""
+        nexpr = norm(e_)
+        gf = GuardFacts(dominating_guards(site_))
+        parsed = norm(resolve_names(fn_, e_, allow_calls=True, keep=(src_,)))
+        if (gf.get(f'{nexpr} > 0') is True or gf.get(f'{nexpr} >= 1') is True) and parsed.startswith(f'int({src_}'):
+            return True
+        if depth >= 2 or not isinstance(e_, ast.Name):
+            return False
+        defs = [d.value for d in ast.walk(fn_) if isinstance(d, ast.Assign) and len(d.targets) == 1 and norm(d.targets[0]) == nexpr]
+        if len(defs) != 1 or not (isinstance(defs[0], ast.Call) and dotted(defs[0].func).startswith('_') and repo.has_func(BRK, dotted(defs[0].func))):
+            return False
+        h = repo.func(BRK, dotted(defs[0].func))
+        hp = [a_.arg for a_ in h.args.args]
+        pos = [i for i, a_ in enumerate(defs[0].args) if norm(a_) == src_]
+        if len(pos) != 1 or pos[0] >= len(hp):
+            return False
+        rets = [r_ for r_ in walk_no_nested(h) if isinstance(r_, ast.Return)]
+        nones = [r_ for r_ in rets if r_.value is None or (isinstance(r_.value, ast.Constant) and r_.value.value is None)]
+        vals = [r_ for r_ in rets if r_ not in nones]
+        if nones and gf.get(f'{nexpr} is not None') is not True and gf.get(f'{nexpr} is None') is not False:
+            return False
+        return bool(vals) and all(positive_parsed(h, r_, r_.value, hp[pos[0]], depth + 1) for r_ in vals)
+    from ..pyfacts import walk_no_nested
     for r in skips:
-        nexpr = norm(r.value.elts[1])
-        gf = GuardFacts(dominating_guards(r))
-        parsed = norm(resolve_names(q, r.value.elts[1], allow_calls=True))
-        sk_ok = sk_ok and (gf.get(f'{nexpr} > 0') is True or gf.get(f'{nexpr} >= 1') is True) and parsed.startswith('int(argument')
+        sk_ok = sk_ok and positive_parsed(q, r, r.value.elts[1], 'argument')
     rep.check(sk_ok, 'C15.COMMANDS', 'skip-count-positive', 'count parsed from the argument; non-positive counts re-prompt', f'{BRK}:{q.lineno}')
     # EOF on the prompt quits: the only return that is reached while the read line is known to be None is ('exit', 0)
     eof_rets = [r for r in ast.walk(q) if isinstance(r, ast.Return) and GuardFacts(dominating_guards(r)).get('line is None') is True]
@@ -330,6 +354,22 @@ CMD_ALLOW: Dict[str, str] = {
 }
 
 
+def _is_sequence(fn: ast.AST, e: ast.expr) -> bool:
+    """e is provably a list / str / tuple (truthiness = non-empty): a slice, a literal, `.split(..)`, list(..) / tuple(..) / sorted(..), or
+    a local whose every binding is one of these"""
+    if isinstance(e, ast.Subscript) and isinstance(e.slice, ast.Slice):
+        return True
+    if isinstance(e, (ast.List, ast.Tuple, ast.ListComp, ast.JoinedStr)) or (isinstance(e, ast.Constant) and isinstance(e.value, (str, bytes))):
+        return True
+    if isinstance(e, ast.Call) and (dotted(e.func) in ('list', 'tuple', 'sorted', 'str') or (isinstance(e.func, ast.Attribute) and e.func.attr in ('split', 'rsplit', 'splitlines', 'strip', 'lower', 'upper'))):
+        return True
+    if isinstance(e, ast.Name):
+        defs = [d.value for d in ast.walk(fn) if isinstance(d, ast.Assign) and len(d.targets) == 1 and isinstance(d.targets[0], ast.Name) and d.targets[0].id == e.id]
+        stores = sum(1 for x in ast.walk(fn) if isinstance(x, ast.Name) and x.id == e.id and isinstance(x.ctx, ast.Store))
+        return bool(defs) and stores == len(defs) and all(_is_sequence(fn, d) for d in defs)
+    return False
+
+
 def rule_cmd_escape(rep: Report, repo: Repo) -> None:
     rep.rule('C15.CMD-ESCAPE', 'no debugger command can end the run with a raw exception: on the call closure of handle_breakpoint every '
              'implicitly raising construct (subscript, division, shift, int() of typed text) meets a handler that reports instead of '
@@ -382,6 +422,8 @@ def rule_cmd_escape(rep: Report, repo: Repo) -> None:
                 elif isinstance(node.slice, ast.Constant) and isinstance(node.slice.value, int) and node.slice.value >= 0 and (     # type: ignore[attr-defined]
                         gd.get(f'len({base}) > {node.slice.value}') is True or gd.get(f'len({base}) >= {node.slice.value + 1}') is True):   # type: ignore[attr-defined]
                     proof = f'GUARD: len({base}) > {node.slice.value} holds here'           # type: ignore[attr-defined]
+                elif isinstance(node.slice, ast.Constant) and node.slice.value == 0 and gd.get(base) is True and _is_sequence(fn, node.value):   # type: ignore[attr-defined]
+                    proof = f'GUARD: the sequence {base} is non-empty here (its truth is tested)'
                 else:
                     # `for k in D` / `for k in tuple(D)[::-1]`: k is a key of D
                     for a in [x for x in __import__('fjverif.pyfacts', fromlist=['ancestors']).ancestors(node) if isinstance(x, ast.For)]:
@@ -389,7 +431,8 @@ def rule_cmd_escape(rep: Report, repo: Repo) -> None:
                                 isinstance(c, ast.Call) and dotted(c.func) not in ('tuple', 'list', 'sorted', 'reversed') for c in ast.walk(a.iter)):
                             proof = f'GUARD: {key} iterates over the keys of {base}'
             if proof is None and s_.kind == 'binop':
-                right = node.right            # type: ignore[attr-defined]
+                from ..pyfacts import resolve_names as _rn
+                right = _rn(fn, node.right, allow_calls=True, keep=('w', 'bits_per_word'))            # type: ignore[attr-defined]   # a named shift amount reads as its value
                 rt = norm(right)
                 if rt in ('w', 'mem.memory_width', 'bits_per_word', 'w.bit_length()') or isinstance(right, ast.Constant):
                     proof = f'CONST: `{rt}` is the validated memory width / a table constant'
